@@ -23,6 +23,20 @@
 
 exception Need of string
 
+(* fast hex output: [byte] is an enumeration of 256 constant constructors declared in order, so
+   its run-time representation is the byte value; this is CHECKED against conv.ml's table at
+   start-up (the generic hex_of_bytes goes through Byte.to_N and Printf for every byte, which
+   dominated the run time for zip responses) *)
+let ibyte (b : byte) : int = (Obj.magic b : int)
+let () = Array.iteri (fun i b -> if ibyte b <> i || int_of_byte b <> i then failwith "byte representation") byte_tab
+let hex_tab : string array = Array.init 256 (Printf.sprintf "%02x")
+let hex_of_bytes (l : byte list) : string =
+  if l = [] then "-" else begin
+    let b = Buffer.create 256 in
+    List.iter (fun x -> Buffer.add_string b hex_tab.(ibyte x)) l;
+    Buffer.contents b
+  end
+
 let tbl1 : (string, bool) Hashtbl.t = Hashtbl.create 1024     (* "kind key" *)
 let tbl2 : (string, bool) Hashtbl.t = Hashtbl.create 1024     (* "kind key1 key2" *)
 let tbls : (string, byte list) Hashtbl.t = Hashtbl.create 1024
@@ -79,8 +93,16 @@ let show_resp = function
   | OkZip es -> "zip " ^ show_pairs es
   | Err500 -> "500"
 
+(* the module list of the current directory, computed once (readModList runs at start-up);
+   a computation interrupted by a missing oracle entry is simply repeated on the next request *)
+let cur_ml : (bytes * bytes) list option option ref = ref None
+let mod_list () =
+  match !cur_ml with
+  | Some r -> r
+  | None -> let r = read_mod_list orc !cur_dir in cur_ml := Some r; r
+
 let with_server f =
-  match read_mod_list orc !cur_dir with
+  match mod_list () with
   | None -> "NOSERVER"
   | Some ml -> f ml
 
@@ -109,9 +131,9 @@ let handle = function
       String.concat " " (List.map hex_of_bytes
         [mod_prefix; at_v; list_name; [ext_sep]; ext_info; ext_mod; ext_zip; suffix_txt; suffix_txtar;
          vers_sep; [disk_sep]; [path_sep]; hidden_prefix; entry_dot; zip_at; zip_slash; info_entry])
-  | "dir" :: r -> cur_dir := parse_dir r []; "ok"
+  | "dir" :: r -> cur_dir := parse_dir r []; cur_ml := None; "ok"
   | ["modlist"] ->
-      (match read_mod_list orc !cur_dir with
+      (match mod_list () with
        | None -> "err"
        | Some ml -> String.concat " " ("ok" :: List.concat_map (fun (p, v) -> [hex_of_bytes p; hex_of_bytes v]) ml))
   | ["route"; u] ->
